@@ -122,8 +122,8 @@ Definition to_level (al : option abs_level) : option numlevel :=
   match al with Some l => Some (mkLevel (al_index l) (al_ordered l)) | None => None end.
 
 (* Numbering.find_level(num_id, level); num_id may be None when it comes from a numbering style
-   without numId.  Recursion through numStyleLink on fuel; a missing numbering style is
-   `None.num_id`: AttributeError (Crash 34). *)
+   without numId.  Recursion through numStyleLink on fuel; a missing numbering style resolves
+   to no level. *)
 Fixpoint find_level (fuel : nat) (nm : numbering) (num_id : option str) (level : str) : outcome (option numlevel) :=
   match fuel with
   | O => Crash 35                                          (* RecursionError: cyclic numStyleLink *)
@@ -139,7 +139,7 @@ Fixpoint find_level (fuel : nat) (nm : numbering) (num_id : option str) (level :
               | None => Ok (to_level (dict_get level (an_levels an)))
               | Some link =>
                   match dict_get link (st_numbering (nm_styles nm)) with
-                  | None => Crash 34
+                  | None => Ok None
                   | Some num_id' => find_level f nm num_id' level
                   end
               end
